@@ -163,7 +163,7 @@ MUTANTS = [
     ("int64-divide-rounding-sign", "C15", "fixed.CPyInt64_Divide", "mypyc/lib-rt/int_ops.c", "    if (((x < 0) != (y < 0)) && d * y != x) {\n        d--;\n    }\n    return d;\n}\n\nint64_t CPyInt64_Remainder", "    if ((x < 0) && d * y != x) {\n        d--;\n    }\n    return d;\n}\n\nint64_t CPyInt64_Remainder", "violation"),
     ("worker-replay-without-set-file", "C07", "replay", "mypy/build_worker/worker.py", "            manager.errors.set_file(state.xpath, id, state.options)\n", "", "violation"),
     ("native-parser-arg-error-not-blocking", "C14", "parsers", "mypy/nativeparse.py", "                message_registry.ARG_CONSTRUCTOR_TOO_MANY_ARGS.value,\n                invalid.line,\n                invalid.column,\n                blocker=True,", "                message_registry.ARG_CONSTRUCTOR_TOO_MANY_ARGS.value,\n                invalid.line,\n                invalid.column,\n                blocker=False,", "violation"),
-    ("pass1-for-else-block-skipped", "C14", "pass1", "mypy/semanal_pass1.py", "        if s.else_body is not None:\n            s.else_body.accept(self)\n\n    def visit_match_stmt", "\n    def visit_match_stmt", "violation|undecided"),
+    ("pass1-for-else-block-skipped", "C14", "pass1", "mypy/semanal_pass1.py", "    def visit_for_stmt(self, s: ForStmt) -> None:\n        s.body.accept(self)\n        if s.else_body is not None:\n            s.else_body.accept(self)", "    def visit_for_stmt(self, s: ForStmt) -> None:\n        s.body.accept(self)", "violation"),
     ("enabled-parent-check-dropped", "C13", "is_error_code_enabled", "mypy/errors.py", "elif error_code.sub_code_of is not None and error_code.sub_code_of in current_mod_disabled:\n            return False", "elif error_code.sub_code_of is not None and error_code.sub_code_of in current_mod_enabled:\n            return False", "violation"),
 ]
 
